@@ -14,6 +14,8 @@ EXACT = [{"seconds": 1}, {"hours": 1}, {"minutes": 90}, {"days": 1}, {"hours": 3
          {"days": 7}, {"days": 366}, {"seconds": 0}, {"hours": 1, "minutes": -60}, {"seconds": 1.5}, {"seconds": 0.25}]
 NOMINAL = [{"months": 1}, {"months": 2}, {"years": 1}, {"years": 4}, {"months": 1, "days": 2},
            {"years": 1, "months": 1}, {"months": 1, "hours": 1}]
+# exact intervals with decimal seconds that are not binary fractions (C12 only: bound tests under rounding noise)
+EXACT_DECIMAL = [{"seconds": 0.3}, {"seconds": 0.1}]
 NS = [None, 1, 2, 3, 4, 7]
 CAP = 12
 
